@@ -311,8 +311,32 @@ func checkC19(P *Prog, r *Result) {
 					}
 				}
 			}
+			// ... nor the input's own container, when this node goes on to write the elements of its destination (the
+			// element schemas are given `dest.Index(i).Addr()`): Parse would be writing coerced items into the caller's slice
+			var inputBad []string
+			if strings.HasPrefix(w.what, "reflect.Set") {
+				writesElems := false
+				eachInstr(fn, func(_ *ssa.BasicBlock, _ int, in2 ssa.Instruction) {
+					if c2 := callOf(in2); c2 != nil && c2.static != nil && isPkgFunc(c2.static, "reflect") && c2.static.Name() == "Addr" {
+						if c3, ok := cvi(c2.args()[0]).(*ssa.Call); ok && callOf(c3).static != nil && callOf(c3).static.Name() == "Index" {
+							writesElems = true
+						}
+					}
+				})
+				if writesElems {
+					for _, rt := range P.rootsOf(val) {
+						for _, cl := range P.resolveUnknownParam(g, P.classifyIn(fn, rt), 0, map[*ssa.Parameter]bool{}) {
+							if cl.class == mcInput {
+								inputBad = append(inputBad, cl.rt.String())
+							}
+						}
+					}
+				}
+			}
 			if len(bad) > 0 {
 				r.bad("C19/default-not-aliased", c, P.ipos(w.in), "a reference-typed value owned by the schema is stored into the destination without a copy: mutating the destination mutates the schema: "+shortName(w.in.String()), uniqSorted(bad)...)
+			} else if len(inputBad) > 0 {
+				r.bad("C19/default-not-aliased", c, P.ipos(w.in), "the destination is set to a container that is (part of) the input data and its elements are then written through it: Parse modifies the slice it was given as input: "+shortName(w.in.String()), uniqSorted(inputBad)...)
 			} else {
 				r.ok("C19/default-not-aliased", c, P.ipos(w.in), "stored reference does not derive from schema-owned memory")
 			}
